@@ -304,8 +304,8 @@ func (p *Plan) matchAlt(l *Leaf, o *Observed) (int, string) {
 			_ = conv
 			return i, obs
 		}
-		if strings.Contains(w.RHS, "(") && w.Conv == "" && !strings.HasSuffix(w.SrcPath, "()") {
-			continue
+		if w.Conv == "" && strings.Count(w.RHS, "(") != strings.Count(w.SrcPath, "()") {
+			continue // a call the inspector could not classify
 		}
 		if w.Conv != a.Conv {
 			continue
